@@ -160,8 +160,9 @@ HOTRELOAD_QUERIES = ['_ans(lambda: _wf(W()))', '_ans(lambda: _wf(1))', '_ans(lam
 FAMILIES = {
     # focus families: small hint / object sets so that equal-but-not-identical hints, redefinitions and
     # failing-then-succeeding references really meet inside one history
-    'redefine': (['K', 'list[K]', 'Optional[K]', 'type[K]', '"K"', 'list["K"]', 'dict[str, K]'],
-                 ['K()', 'KOLD', '[K()]', '[KOLD]', 'K', '{"a": K()}', 'None', '1']),
+    'redefine': (['K', 'list[K]', 'Optional[K]', 'type[K]', '"K"', 'list["K"]', 'dict[str, K]', 'Optional["K"]', 'dict[str, "K"]',
+                  'tuple["K", ...]', 'list["K"]'],
+                 ['K()', 'KOLD', '[K()]', '[KOLD]', 'K', '{"a": K()}', 'None', '1', '(K(),)', '{"a": KOLD}', '[K()]']),
     'forward': (['"LaterCls"', 'list["LaterCls"]', 'Optional["LaterCls"]', 'Union[int, "LaterCls"]', 'dict[str, "LaterCls"]', 'int'],
                 ['LATER', '[LATER]', '1', 'None', '{"a": LATER}', '"a"']),
     'literal': (['Literal[1]', 'Literal[True]', 'Literal[0]', 'Literal[False]', 'Literal[1, "a"]', 'Literal["a", 1]', 'Literal[True, "a"]',
@@ -353,6 +354,12 @@ def main():
         steps, ns_ops, redefs = [], [], 0
         family = rng.choice(list(FAMILIES))
         local = rng.sample(pools[family], 5)     # asked again and again, before and after namespace operations
+        if family == 'redefine':
+            # ... always with a stringified reference on a conforming object of the class as currently defined
+            local = local + [rng.choice(("ib(lambda: [K()], lambda: list[\"K\"], 'CONF0')",
+                                         "die(lambda: {\"a\": K()}, lambda: dict[str, \"K\"], 'CONF0')",
+                                         "ib(lambda: K(), lambda: Optional[\"K\"], 'CONF_NONRANDOM')",
+                                         "call(lambda: list[\"K\"], lambda: [K()], 'CONF0')"))]
         if family == 'scoped':
             # one spelling asked in several scopes / classes within the same history
             focus = rng.choice(SCOPED)
@@ -413,6 +420,13 @@ def main():
          ('query', "callm('c14_scope1', lambda: list[\"Node\"], lambda M: [M.Node()], 'CONF0')")],
         [('query', "selfm('S1', lambda: tuple[Self, int], lambda M: (M(), 1))"), ('query', "selfm('S2', lambda: tuple[Self, int], lambda M: (M(), 1))"),
          ('query', "selfm('S1', lambda: Optional[Self], lambda M: M())"), ('query', "selfm('S2', lambda: Optional[Self], lambda M: M())")],
+        # stringified references given to the statement-level checkers, resolved at first sight, then the name rebound
+        [st for g in (1, 2) for st in (
+            ('query', "ib(lambda: [K()], lambda: list[\"K\"], 'CONF0')"), ('query', "ib(lambda: {\"a\": K()}, lambda: dict[str, \"K\"], 'CONF0')"),
+            ('query', "die(lambda: K(), lambda: Optional[\"K\"], 'CONF0')"), ('query', "ib(lambda: K(), lambda: \"K\", 'CONF0')"),
+            ('query', "ib(lambda: (K(),), lambda: tuple[\"K\", ...], 'CONF0')"), ('ns', NS_OPS['REDEFINE_K'].format(n=g)),
+            ('query', "ib(lambda: [KOLD], lambda: list[\"K\"], 'CONF0')"))]
+        + [('query', "ib(lambda: [K()], lambda: list[\"K\"], 'CONF0')"), ('query', "die(lambda: K(), lambda: Optional[\"K\"], 'CONF0')")],
         # a decorated class hot-reloaded five times under long-lived callables naming it
         [('ns', DEFINE_WF)] + [st for g in range(1, 6) for st in (
             ('ns', DEFINE_W.format(n=g)), ('query', '_ans(lambda: _wf(W()))'), ('query', '_ans(lambda: _wf2([W()]))'),
